@@ -123,19 +123,18 @@ def with_probe(text, probes, idx):
 
 
 def expected_path(file_path, ref, parts):
+    """location denoted by !path:<ref> written in the file at (absolute, real) file_path - computed on the absolute path, independent of
+    the name the file was reached by"""
     import pathlib
-    src = pathlib.Path(file_path)
+    src = pathlib.Path(os.path.abspath(file_path))
     if ref == 'file':
         base = src
     else:
         m = re.match(r'parent(\((\d+)\))?', ref)
         n = int(m.group(2)) if m.group(2) else 0
-        ps = list(src.parents)
-        extra = []
-        if n >= len(ps):
-            extra = ['..'] * (n - len(ps) + 1)
-            n = len(ps) - 1
-        base = ps[n].joinpath(*extra)
+        base = src.parent
+        for _ in range(n):
+            base = base.parent
     return os.path.abspath(os.path.normpath(str(base.joinpath(*parts))))
 
 
@@ -208,6 +207,24 @@ def run(case):
                 if got[0] != 'err' or got[1] != base[1]:
                     vio.append({'mech': 'variant-outcome-differs:' + name, 'what': f'separate sources raise {base[1]} but delivery "{name}" -> {got[0]} {got[1] if got[0] == "err" else ""}; {what}'})
             return got
+        # ---------------- the same files reached by *relative* names from different working directories (no / some / only '..' components)
+        if base[0] == 'ok':
+            pf = paths[case['probe_doc']]
+            for wd in (root, os.path.dirname(pf), os.path.join(root, 'tree'), cwd, os.path.join(os.path.dirname(pf), 'below', 'deeper')):
+                os.makedirs(wd, exist_ok=True)
+                os.chdir(wd)
+                try:
+                    names = [os.path.relpath(p, wd) for p in paths]
+                    tag = 'relative_names_from_' + (os.path.relpath(wd, root).replace(os.sep, '_') or 'root')
+                    got = observe(lambda: Config.build(*names))
+                    _counts['variants_compared'] += 1
+                    feats.append('variant_relative_sources')
+                    if got[0] != 'ok' or got[1] != base[1]:
+                        vio.append({'mech': 'variant-differs:relative_sources', 'what': f'sources given by absolute names -> {util.short(_plain(base[2]), 300)}; by names relative to {os.path.relpath(wd, root)!r} ({names}) -> {util.short(got[1:], 300)}; {what}'})
+                    else:
+                        check_probes(got[2], tag, pf)
+                finally:
+                    os.chdir(cwd)
         # ---------------- (ii) one multi-document file
         multi = os.path.join(mdir, 'multi.yaml')
         write(multi, ''.join(t if t.startswith('--- ') else '---\n' + t for t in texts))
